@@ -14,6 +14,6 @@ Extraction "../ocaml/model.ml"
   default_cfg req_init req_parse req_reserve req_generate req_generate_full hdr_generate_full
   chunk_init chunk_decode chunk_reserves
   resp_init resp_parse resp_generate dechunk_headers
-  decode_body decode_text w1252_decode content_type_charset zlib_header
+  decode_body decode_text for_label_of label_norm w1252_decode content_type_charset zlib_header
   inflate_raw_model inflate_zlib_model gunzip_model crc32 adler32
   feed feed_trace trim lower.
